@@ -9,7 +9,8 @@
      6 dropc.call(h)           7 dropc.ret(h)          8 try.call             9 try.ret(k, v)
     10 recv.call(co)          11 recv.ret(k, v)       12 rt.call(co, dur)    13 rt.ret(k, v)
     14 dropp.call             15 dropp.ret            16 tpark.enter(pk)     17 tpark.leave(pk, woken)   18 tpark.unpark(pk)
-     (k: 0 Ok, 1 Empty, 2 Disconnected, 4 Timeout; v = h * 1000 + seq)
+     19 clk(now_ns)
+     (k: 0 Ok, 1 Empty, 2 Disconnected, 4 Timeout, 5 left by the Cancel panic; v = h * 1000 + seq)
    src/sync/mpsc.rs:
     20 send port_dropped.load  21 send to_wake.take     22 recv to_wake.store   23 recv to_wake.clear
     24 try_recv channels.load  25 clone_chan fetch_add  26 drop_chan fetch_sub  27 drop_chan to_wake.take
@@ -100,6 +101,15 @@ Definition is_r (x : aux) (a : nat) := negb (Nat.eqb a 0) && Nat.eqb (ract x) a.
 Definition resume (s : st) : list action :=
   match reason (Bk s (rb (R s))) with Some _ => [RStep] | None => [Fire RT; RStep] end.
 
+(* recv.ret / rt.ret with k = 5: the scenario saw the Cancel panic unwind out of the call.  The only cancellation
+   point of the call is the yield of Park::park_timeout, after check_park found no token (ph = 2: the model is at
+   RWait): the cancel is delivered (Fire RC) and the resumption ends the call (RCancel). *)
+Definition cancelled (s : st) (x : aux) (a : nat) : option plan :=
+  guard (is_r x a && Nat.eqb (ph x) 2 && at_r s RWait && rco (R s))
+    (Some {| acts := [Fire RC; RStep];
+             post := fun s' => at_r s' RIdle && match rres (R s') with RCancel => true | _ => false end;
+             nxt := fun _ => set_ph (set_ract x O) 0%nat |}).
+
 Definition plan_ev (s : st) (x : aux) (e : list Z) : option plan :=
   match e with
   | [code; za; o; v] =>
@@ -119,11 +129,15 @@ Definition plan_ev (s : st) (x : aux) (e : list Z) : option plan :=
     | 8 => guard (negb ins && Nat.eqb (ract x) 0 && Nat.eqb (ph x) 0) (ok [TryRecv] (set_ract x a))
     | 10 => guard (negb ins && Nat.eqb (ract x) 0 && Nat.eqb (ph x) 0) (ok [Recv (zb o)] (set_ract x a))
     | 12 => guard (negb ins && Nat.eqb (ract x) 0 && Nat.eqb (ph x) 0) (ok [RecvTimeout (zb o)] (set_ract x a))
-    | 9 | 11 => guard (is_r x a && Nat.eqb (ph x) 0 && at_r s RIdle && res_is (rres (R s)) o v) (skip (set_ract x O))
-    | 13 => guard (is_r x a && Nat.eqb (ph x) 0)
+    | 9 => guard (is_r x a && Nat.eqb (ph x) 0 && at_r s RIdle && res_is (rres (R s)) o v) (skip (set_ract x O))
+    | 11 => if Z.eqb o 5 then cancelled s x a
+            else guard (is_r x a && Nat.eqb (ph x) 0 && at_r s RIdle && res_is (rres (R s)) o v) (skip (set_ract x O))
+    | 13 => if Z.eqb o 5 then cancelled s x a else
+            guard (is_r x a && Nat.eqb (ph x) 0)
               (if at_r s RDeadline
                then guard (Z.eqb o 4) (Some {| acts := [RDl true]; post := fun _ => true; nxt := fun _ => set_ract x O |})
                else guard (at_r s RIdle && res_is (rres (R s)) o v) (skip (set_ract x O)))
+    | 19 => skip x
     | 14 => guard (negb ins && Nat.eqb (ract x) 0 && Nat.eqb (ph x) 0) (ok [DropPort] (set_ract x a))
     | 15 => guard (is_r x a && at_r s RIdle && negb (ralive (R s))) (skip (set_ract x O))
     (* ---- ThreadPark (virtual): token check at enter, resumption at leave ---- *)
